@@ -11,6 +11,10 @@ package main
 //   entropy:   TotalLogEntropy(child) > TotalLogEntropy(parent);
 //   order:     CalcOrder(child) is identical on repeated calls, on a cold replica started from a
 //              copy of the databases, and for the wire round-tripped object.
+// Every word is walked twice: plain, and with a work share on every head (so that every zone block,
+// parent and child alike, carries an uncle whose entropy counts); there TotalLogEntropy of parent and
+// child must also be identical on repeated calls (before and after VerifyHeader used it) and on the
+// cold replica.
 
 import (
 	"fmt"
@@ -182,12 +186,36 @@ func c09Deviations() []c09Dev {
 // chain derives (efficiency score, threshold count, miner difficulty, eligible slices, prime/region
 // state roots) are only deviated on blocks of that order (elsewhere they are copies, re-derived at
 // the next coincident block).
-func c09Node(s *scen, word string, p *vx.Part, cold bool) (viol [][2]string, child *types.WorkObject, harness string) {
+func c09Node(s *scen, word string, p *vx.Part, cold, shares bool) (viol [][2]string, child *types.WorkObject, harness string) {
 	order := map[byte]int{'z': 2, 'r': 1, 'p': 0}[word[len(word)-1]]
 	parents := s.n.Heads
+	if shares {
+		if _, err := s.n.VMakeWorkShare(s.k[2].Addr, 0, int64(len(word))); err != nil {
+			return nil, nil, "work share: " + err.Error()
+		}
+	}
 	blk, err := s.n.Build(core.VBuildOpts{Order: order, Fill: true})
 	if err != nil {
 		return nil, nil, "build: " + err.Error()
+	}
+	tag := ""
+	if shares {
+		// the worker includes the pending shares from the third block of a word on: there the child
+		// carries uncles, and from the fourth block on the parent does too
+		tag = fmt.Sprintf("+shares(uncles:parent=%d,child=%d)", len(parents[2].Uncles()), len(blk.Uncles()))
+		if (len(word) >= 3 && len(blk.Uncles()) == 0) || (len(word) >= 4 && len(parents[2].Uncles()) == 0) {
+			return nil, nil, "share variant: parent or child carries no uncle: " + tag
+		}
+	}
+	// entropy values seen first (before any other query on this node), compared with later ones
+	type ent struct{ parent, child *big.Int }
+	first := map[int]ent{}
+	if shares {
+		for ctx := order; ctx <= 2; ctx++ {
+			hc := s.n.Sl[ctx].HeaderChain()
+			v, _ := core.VRoundTrip(blk, core.VZoneLoc)
+			first[ctx] = ent{new(big.Int).Set(hc.TotalLogEntropy(parents[ctx])), new(big.Int).Set(hc.TotalLogEntropy(v))}
+		}
 	}
 	for ctx := order; ctx <= 2; ctx++ {
 		hc := s.n.Sl[ctx].HeaderChain()
@@ -197,7 +225,7 @@ func c09Node(s *scen, word string, p *vx.Part, cold bool) (viol [][2]string, chi
 			return viol, blk, ""
 		}
 		p.Traces++
-		p.Outcome(fmt.Sprintf("order%d:ctx%d:own=>accept", order, ctx))
+		p.Outcome(fmt.Sprintf("order%d:ctx%d:own%s=>accept", order, ctx, tag))
 		// entropy strictly increases along the chain
 		pe, ce := hc.TotalLogEntropy(parents[ctx]), hc.TotalLogEntropy(view)
 		if ce.Cmp(pe) <= 0 {
@@ -249,6 +277,20 @@ func c09Node(s *scen, word string, p *vx.Part, cold bool) (viol [][2]string, chi
 			}
 		}
 	}
+	// entropy stability (share-carrying blocks): after all the queries above the values are unchanged
+	if shares {
+		for ctx := order; ctx <= 2; ctx++ {
+			hc := s.n.Sl[ctx].HeaderChain()
+			v, _ := core.VRoundTrip(blk, core.VZoneLoc)
+			for rep := 0; rep < 2; rep++ {
+				pe, ce := hc.TotalLogEntropy(parents[ctx]), hc.TotalLogEntropy(v)
+				if pe.Cmp(first[ctx].parent) != 0 || ce.Cmp(first[ctx].child) != 0 {
+					viol = append(viol, [2]string{fmt.Sprintf("entropy-unstable:repeat:ctx%d", ctx), fmt.Sprintf("word %q with a work share in every block: chain %d: TotalLogEntropy of the same blocks changed between queries: parent %v -> %v, child %v -> %v", word, ctx, first[ctx].parent, pe, first[ctx].child, ce)})
+					break
+				}
+			}
+		}
+	}
 	// order stability: repeated, round-tripped, cold replica
 	_, o1, e1 := s.n.Zone().CalcOrder(blk)
 	rt, _ := core.VRoundTrip(blk, core.VZoneLoc)
@@ -265,6 +307,12 @@ func c09Node(s *scen, word string, p *vx.Part, cold bool) (viol [][2]string, chi
 			_, oc, ec := cn.Sl[ctx].CalcOrder(rt)
 			if ec != nil || oc != order {
 				viol = append(viol, [2]string{fmt.Sprintf("order-unstable:cold:ctx%d", ctx), fmt.Sprintf("word %q: a freshly started chain %d computes order %d (%v), the warm node %d", word, ctx, oc, ec, order)})
+			}
+			if shares {
+				chc := cn.Sl[ctx].HeaderChain()
+				if pe, ce := chc.TotalLogEntropy(parents[ctx]), chc.TotalLogEntropy(rt); pe.Cmp(first[ctx].parent) != 0 || ce.Cmp(first[ctx].child) != 0 {
+					viol = append(viol, [2]string{fmt.Sprintf("entropy-unstable:cold:ctx%d", ctx), fmt.Sprintf("word %q with a work share in every block: a freshly started chain %d computes TotalLogEntropy parent=%v child=%v, the warm node %v / %v", word, ctx, pe, ce, first[ctx].parent, first[ctx].child)})
+				}
 			}
 		}
 		cn.Close()
@@ -291,18 +339,23 @@ func c09Words(maxLen int) []string {
 	return out
 }
 
-func c09RunWord(c *vx.Ctx, p *vx.Part, word string) ([][2]string, string) {
+func c09RunWord(c *vx.Ctx, p *vx.Part, word string, shares bool) ([][2]string, string) {
 	s, err := newScen(3, false, nil)
 	if err != nil {
 		return nil, err.Error()
 	}
 	defer s.close()
-	if len(word) > 1 {
-		if err := s.runWord(word[:len(word)-1]); err != nil {
+	for i := 0; i+1 < len(word); i++ {
+		if shares {
+			if _, err := s.n.VMakeWorkShare(s.k[2].Addr, 0, int64(i)); err != nil {
+				return nil, "prefix work share: " + err.Error()
+			}
+		}
+		if err := s.runWord(word[i : i+1]); err != nil {
 			return nil, "prefix " + err.Error()
 		}
 	}
-	viol, blk, h := c09Node(s, word, p, len(word)%2 == 0)
+	viol, blk, h := c09Node(s, word, p, len(word)%2 == 0, shares)
 	if h != "" {
 		return viol, h
 	}
@@ -324,9 +377,11 @@ func runC09(c *vx.Ctx) {
 	p.Bound("depth", depth)
 	words := c09Words(depth)
 	if c.Shard == 0 {
-		p.States = int64(len(words))
+		p.States = 2 * int64(len(words))
 	}
-	for i, w := range words {
+	p.Bound("variants", "plain; a work share on every head (every block carries an uncle)")
+	for i := 0; i < 2*len(words); i++ {
+		w, shares := words[i/2], i%2 == 1
 		if !c.Mine(int64(i)) {
 			continue
 		}
@@ -334,15 +389,15 @@ func runC09(c *vx.Ctx) {
 			p.Incomplete("deadline")
 			return
 		}
-		viol, harness := c09RunWord(c, p, w)
+		viol, harness := c09RunWord(c, p, w, shares)
 		if harness != "" {
-			c.HarnessError(fmt.Sprintf("word %q: %s", w, harness))
+			c.HarnessError(fmt.Sprintf("word %q (shares=%v): %s", w, shares, harness))
 			return
 		}
 		for _, v := range viol {
-			v, w := v, w
+			v, w, shares := v, w, shares
 			if c.Confirm(v[1], func() string {
-				vs, _ := c09RunWord(c, c.Part("confirm-scratch"), w)
+				vs, _ := c09RunWord(c, c.Part("confirm-scratch"), w, shares)
 				for _, x := range vs {
 					if x[0] == v[0] {
 						return x[0]
@@ -350,7 +405,7 @@ func runC09(c *vx.Ctx) {
 				}
 				return ""
 			}) {
-				c.Violate("header-rules", v[0], v[1], map[string]string{"word": w})
+				c.Violate("header-rules", v[0], v[1], map[string]string{"word": w, "shares": fmt.Sprint(shares)})
 			}
 		}
 		if len(viol) == 0 && i%11 == 0 {
@@ -369,7 +424,7 @@ func replayC09(c *vx.Ctx, v vx.Violation) string {
 	if err := jsonUnmarshal(raw, &cs); err != nil {
 		return "bad replay: " + err.Error()
 	}
-	vs, h := c09RunWord(c, c.Part("replay"), cs["word"])
+	vs, h := c09RunWord(c, c.Part("replay"), cs["word"], cs["shares"] == "true")
 	if h != "" {
 		return "harness: " + h
 	}
